@@ -1,7 +1,8 @@
 """C16 - a fault in one text block does not disturb the rest of the document (structural clauses)."""
 from ..report import Check
 from ..callgraph import CallGraph
-from ..rules import stack, scopes
+from ..rules import stack, scopes, globalstate
+from ..lexer import Lexer
 
 
 def run(F, G, tier, seed):
@@ -12,6 +13,9 @@ def run(F, G, tier, seed):
     stack.check(chk, T, "R-STACK[doc]", "UTAP::DocumentBuilder", emit=("N", "P"))
     scopes.stale(chk, F)
     scopes.entry_points(chk, F)
+    # the scanner's start condition is the one piece of lexer state that outlives a block: a label that ends
+    # inside a comment must not turn the following blocks into comment text
+    globalstate.run_startcond(chk, F, CG, Lexer(F))
     # top-relative access only: no callback depends on the absolute depth of an operand stack
     rid = "R-TOPREL"
     chk.rule(rid, "no builder callback reads the absolute size of an operand stack (so a stray fragment left by a "
